@@ -243,7 +243,9 @@ def rnd_ast(r, idbase=0):
     W = ["a", "<h>", "<g>", "x<h>y", "<h><h>", "<x>", "", "\\1", "$1", "<", ">", "<<h>>", "é😀", "<h", "h>"]
 
     def tags(n):
-        return [{"id": nid(), "location": loc, "name": "@" + r.choice("abcd")} for _ in range(n)]
+        # names are carried over as they are: other front ends (the Markdown tag matcher, other implementations' ASTs)
+        # produce names with blanks around or inside them
+        return [{"id": nid(), "location": loc, "name": r.choice(["@a", "@b", "@c", "@d", "@a", "@b", "@smoke ", " @x", "@a b", "@", "@ \t", "@é "])} for _ in range(n)]
 
     def step():
         kt = r.choice(["Unknown", "Context", "Action", "Outcome", "Conjunction"])
